@@ -15,6 +15,7 @@ Inductive out :=
 | OLen (n : N)
 | OTime (t : N)
 | OUnit                       (* cancel *)
+| OPeek (t : option N)        (* peek_time *)
 | OPanic (site : N)           (* 1 = add in the past, 2 = fetch on empty *)
 | OOutOfFuel.
 
@@ -31,6 +32,13 @@ Definition idx (n t time : N) : N := ((time mod (t * n)) / t) mod n.
 Definition cq_new (n t : N) : cq :=
   {| qn := n; qt := t; zero := []; buckets := repeat [] (N.to_nat n);
      head := 0; tcur := 0; t0 := 0; t1 := t; next_id := 0; qlen := 0 |}.
+
+(* mod.rs new_at (fix: commit d335396): the clock starts at ts and the scan
+   window sits on the bucket that contains ts *)
+Definition cq_new_at (n t ts : N) : cq :=
+  {| qn := n; qt := t; zero := []; buckets := repeat [] (N.to_nat n);
+     head := (ts / t) mod n; tcur := ts; t0 := (ts / t) * t; t1 := (ts / t) * t + t;
+     next_id := 0; qlen := 0 |}.
 
 (* linked_list.rs add: walk from the tail while cur.time > new.time, insert
    after the first node that is not later, i.e. after all nodes with
@@ -137,10 +145,23 @@ Definition fetch_next (q : cq) : cq * out :=
           end
   end.
 
+(* mod.rs peek_time (fix: commit f4552a6): the same search as fetch_next on a
+   copy of the window; nothing in the queue changes *)
+Definition peek_time (q : cq) : out :=
+  if qlen q =? 0 then OPeek None else
+  match zero q with
+  | x :: _ => OPeek (Some (etime x))
+  | [] => match iter_until (scan_fuel q) scan_step q with
+          | inr (_, OFetched _ t) => OPeek (Some t)
+          | inr (_, o) => o
+          | inl _ => OOutOfFuel
+          end
+  end.
+
 (* ---- histories ---- *)
 (* [Cancel k] cancels the handle returned by the k-th successful add (k taken
    modulo the number of handles so far; no-op when there is none). *)
-Inductive op := Add (time pay : N) | Cancel (k : N) | Fetch | Len | Time.
+Inductive op := Add (time pay : N) | Cancel (k : N) | Fetch | Len | Time | Peek.
 
 Record st := { sq : cq; handles : list (N * N) }.
 
@@ -161,6 +182,7 @@ Definition step (fixed : bool) (s : st) (o : op) : st * out :=
   | Fetch => let '(q', x) := fetch_next (sq s) in ({| sq := q'; handles := handles s |}, x)
   | Len => (s, OLen (qlen (sq s)))
   | Time => (s, OTime (tcur (sq s)))
+  | Peek => (s, peek_time (sq s))
   end.
 
 Fixpoint run_from (fixed : bool) (s : st) (ops : list op) : st * list out :=
@@ -171,12 +193,16 @@ Fixpoint run_from (fixed : bool) (s : st) (ops : list op) : st * list out :=
   end.
 
 Definition init (n t : N) : st := {| sq := cq_new n t; handles := [] |}.
+Definition init_at (n t ts : N) : st := {| sq := cq_new_at n t ts; handles := [] |}.
 
 Definition run_ops (fixed : bool) (n t : N) (ops : list op) : list out :=
   snd (run_from fixed (init n t) ops).
+Definition run_ops_at (fixed : bool) (n t ts : N) (ops : list op) : list out :=
+  snd (run_from fixed (init_at n t ts) ops).
 
 (* ---- wire format ---- *)
-(* script: n t op*   with op = 1 time pay | 2 k | 3 | 4 | 5 *)
+(* script: n t ts op*   with op = 1 time pay | 2 k | 3 | 4 | 5 | 6;
+   ts = 0 uses CQueue::new, ts > 0 uses CQueue::new_at *)
 Definition dec_op (l : list N) : option (op * list N) :=
   match l with
   | 1 :: t :: p :: r => Some (Add t p, r)
@@ -184,6 +210,7 @@ Definition dec_op (l : list N) : option (op * list N) :=
   | 3 :: r => Some (Fetch, r)
   | 4 :: r => Some (Len, r)
   | 5 :: r => Some (Time, r)
+  | 6 :: r => Some (Peek, r)
   | _ => None
   end.
 
@@ -194,14 +221,17 @@ Definition enc_out (o : out) : list N :=
   | OLen n => [3; n]
   | OTime t => [4; t]
   | OUnit => [5]
+  | OPeek None => [6; 0]
+  | OPeek (Some t) => [6; 1; t]
   | OPanic s => [9; s]
   | OOutOfFuel => [8]
   end.
 
 Definition run (input : list N) : list N :=
   match input with
-  | n :: t :: r =>
+  | n :: t :: ts :: r =>
       if (n =? 0) || (t =? 0) then [7]
-      else flat_map enc_out (run_ops true n t (decode_all dec_op r))
+      else if ts =? 0 then flat_map enc_out (run_ops true n t (decode_all dec_op r))
+      else flat_map enc_out (run_ops_at true n t ts (decode_all dec_op r))
   | _ => [7]
   end.
